@@ -55,7 +55,7 @@ fn main() {
     let max_len = ctx.pick(3usize, 6usize);
     let instances = 3usize;
     ctx.set_rule(
-        "cases = (registry entry, fitted instance 0..2 with different data seeds / feature counts / hyper-parameters); registry = 28 entries covering every predictor type of the workspace (k-means, GMM, OLS, isotonic, Tweedie, \
+        "cases = (registry entry, fitted instance 0..2 with different data seeds / feature counts / hyper-parameters); registry = 33 entries (28 + 5 exact-decision-boundary instances: linear C-SVC on point-symmetric integer data with pool rows on the hyperplane, one-class SVM with rho set to a pool row's decision value, logistic regression with the threshold set to a pool row's probability, k-means with pool rows equidistant from two centroids, decision tree with pool rows exactly on split values; exactness is checked at run time and counted as rows_exactly_on_decision_boundary) covering every predictor type of the workspace (k-means, GMM, OLS, isotonic, Tweedie, \
          elastic net, multi-task elastic net, PLS regression / canonical / CCA, logistic binary / multinomial, SVM C-bool gaussian, C-bool linear / polynomial, probability, regression \
          linear / gaussian, one-class, decision tree, Gaussian NB, multinomial NB, FTRL, PCA, FastICA, MultiTargetModel, MultiClassModel, Platt over a linear scorer and over an SVM); \
          per case: query pool of 6 rows (2 training rows, a duplicate of the first, an off-data midpoint, an extreme row, a third training row) x EVERY ordered selection \
@@ -73,6 +73,7 @@ fn main() {
     ctx.assume("documented panic: predict_inplace with a target of n+1 or n-1 rows must panic with the message documented in the assert ('The number of data points must match the number of output targets.' / '... memberships.' for k-means) and must not have written into the target");
     ctx.assume("MultiTargetModel: column j bit-identical to member j's own prediction of the same batch; MultiClassModel: returned label belongs to a member whose probability (computed by that member on the same batch) is maximal, any tied member accepted; Platt: output in [0,1], |output - 1/(1+exp(A f + B))| <= 1e-6 (implementation evaluates the sigmoid in f32; A, B read from the model's Debug form, f from the inner model on the same batch), non-strictly monotone in f over all ordered pairs of pool rows");
     ctx.assume("Platt and FastICA implement PredictInplace for owned arrays only (trait bounds), so the three view forms do not exist for them; all four layouts are still realised with owned arrays");
+    ctx.assume("exact-boundary instances: labels compared exactly with no indeterminate margin; a pool row counts as on the boundary only if the harness recomputes its decision value / tie from the model's public parameters and finds exact equality (rho == 0 and weighted_sum == 0; probability == threshold; equal squared distances; feature == split value)");
     ctx.assume("training data and pools come from a constant LCG (no entropy source); VERIF_SEED does not influence anything explored");
 
     let reg = registry::registry();
@@ -142,6 +143,17 @@ fn main() {
     }
     ctx.extra("max_float_deviation_in_tolerance_units", json!(*maxdev.lock().unwrap()));
     ctx.extra("per_entry", json!(*per_entry.lock().unwrap()));
+    {
+        let a = agg.lock().unwrap();
+        if a.get("rows_exactly_on_decision_boundary").copied().unwrap_or(0) == 0 {
+            ctx.capped("no pool row lies exactly on a decision boundary: the boundary instances are vacuous");
+        }
+        for (k, v) in a.iter() {
+            if k.starts_with("boundary_construction_not_exact_") && k.ends_with("#0") {
+                ctx.capped(&format!("{}: {} designed boundary rows are not exactly on the boundary", k, v));
+            }
+        }
+    }
     if done as usize != cases.len() {
         ctx.capped(&format!("{} of {} cases completed", done, cases.len()));
     }
